@@ -959,7 +959,11 @@ class IRGenerator:
         """
         arg_dt = self._resolve_type(env, route._ast_node.arg_type_ref)
         result_dt = self._resolve_type(env, route._ast_node.result_type_ref)
-        error_dt = self._resolve_type(env, route._ast_node.error_type_ref)
+        if route._ast_node.error_type_ref is None:
+            # The grammar lets the error type be left out.
+            error_dt = Void()
+        else:
+            error_dt = self._resolve_type(env, route._ast_node.error_type_ref)
 
         ast_deprecated = route._ast_node.deprecated
         if ast_deprecated:
